@@ -96,12 +96,89 @@ def is_self_attr(t, attr):
             and t.attr == attr)
 
 
+def is_doc(n):
+    return isinstance(n, ast.Expr) and isinstance(n.value, ast.Constant) and isinstance(n.value.value, str)
+
+
+def check_structure(tree):
+    """The hand-written part of the model (control flow, the objects a call creates) assumes the structure
+    checked here; in particular that nothing survives a call: no module-level or class-level state, no
+    attribute of a node beyond the ones modelled, compress_flood_fill_regions builds a fresh tree."""
+    for n in tree.body:
+        if is_doc(n) or isinstance(n, (ast.Import, ast.ImportFrom, ast.FunctionDef)):
+            continue
+        if isinstance(n, ast.ClassDef) and n.name == "RegionCoreTree":
+            continue
+        raise py2v.Unsupported("module level: statement at line %d (`%s`) -- module-level state or a new class is "
+                               "not part of the model" % (n.lineno, ast.unparse(n)[:60]))
+    funcs = [n.name for n in tree.body if isinstance(n, ast.FunctionDef)]
+    if funcs != ["get_region_for_chip", "compress_flood_fill_regions"]:
+        raise py2v.Unsupported("module-level functions are %r" % funcs)
+    cls = [n for n in tree.body if isinstance(n, ast.ClassDef)][0]
+    if cls.decorator_list or [ast.unparse(b) for b in cls.bases] != ["object"] or cls.keywords:
+        raise py2v.Unsupported("RegionCoreTree: bases/decorators changed")
+    for n in cls.body:
+        if not (is_doc(n) or isinstance(n, ast.FunctionDef)):
+            raise py2v.Unsupported("RegionCoreTree: class-level statement at line %d (shared between instances)" % n.lineno)
+    methods = [n.name for n in cls.body if isinstance(n, ast.FunctionDef)]
+    if methods != ["__init__", "get_regions_and_coremasks", "add_core"]:
+        raise py2v.Unsupported("RegionCoreTree: methods are %r, the model knows __init__, "
+                               "get_regions_and_coremasks, add_core" % methods)
+    known = {"base_x", "base_y", "scale", "shift", "level", "locally_selected", "subregions"}
+    for f in cls.body:
+        if not isinstance(f, ast.FunctionDef):
+            continue
+        if f.decorator_list:
+            raise py2v.Unsupported("RegionCoreTree.%s is decorated" % f.name)
+        for n in ast.walk(f):
+            if isinstance(n, (ast.Global, ast.Nonlocal)):
+                raise py2v.Unsupported("RegionCoreTree.%s: global/nonlocal" % f.name)
+            if isinstance(n, ast.Attribute) and isinstance(n.value, ast.Name) and n.value.id == "self":
+                if n.attr not in known | set(methods):
+                    raise py2v.Unsupported("RegionCoreTree.%s: attribute self.%s is not modelled (line %d)"
+                                           % (f.name, n.attr, n.lineno))
+                if isinstance(n.ctx, ast.Store) and (f.name != "__init__" or n.attr not in known):
+                    raise py2v.Unsupported("RegionCoreTree.%s: assigns self.%s (line %d)" % (f.name, n.attr, n.lineno))
+    # compress_flood_fill_regions: a fresh tree per call, the two loops, sorted traversal
+    comp = py2v.find_function(tree, "compress_flood_fill_regions")
+    body = "\n".join(ast.unparse(n) for n in comp.body if not is_doc(n))
+    want = ("t = RegionCoreTree()\n"
+            "for ((x, y), cores) in iteritems(targets):\n"
+            "    for p in cores:\n"
+            "        t.add_core(x, y, p)\n"
+            "return sorted(t.get_regions_and_coremasks())")
+    if body.replace("for (x, y), cores in", "for ((x, y), cores) in") != want or [a.arg for a in comp.args.args] != ["targets"]:
+        raise py2v.Unsupported("compress_flood_fill_regions: body is no longer\n%s\nbut\n%s" % (want, body))
+    # add_core: the lazily created child (hand-modelled: float arithmetic) and the recursion
+    add = py2v.find_function(tree, "RegionCoreTree.add_core")
+    texts = {ast.unparse(n) for n in ast.walk(add) if isinstance(n, (ast.Assign, ast.If, ast.AugAssign, ast.Return, ast.Raise))}
+    for t in ("base_x = int(self.base_x + self.scale / 4 * (subregion % 4))",
+              "base_y = int(self.base_y + self.scale / 4 * (subregion // 4))",
+              "self.subregions[subregion] = RegionCoreTree(base_x, base_y, self.level + 1)",
+              "self.locally_selected[p] = 0",
+              "if self.subregions[subregion].add_core(x, y, p):\n    self.locally_selected[p] |= 1 << subregion",
+              "if self.subregions[subregion] is None:\n    base_x = int(self.base_x + self.scale / 4 * (subregion % 4))\n"
+              "    base_y = int(self.base_y + self.scale / 4 * (subregion // 4))\n"
+              "    self.subregions[subregion] = RegionCoreTree(base_x, base_y, self.level + 1)"):
+        if t not in texts:
+            raise py2v.Unsupported("add_core: statement no longer present:\n" + t)
+    n_stmts = sum(1 for n in ast.walk(add) if isinstance(n, ast.stmt)) - 1
+    if n_stmts != 17:
+        raise py2v.Unsupported("add_core has %d statements, the model was written for 17" % n_stmts)
+    get = py2v.find_function(tree, "RegionCoreTree.get_regions_and_coremasks")
+    n_stmts = sum(1 for n in ast.walk(get) if isinstance(n, ast.stmt)) - 1
+    if n_stmts != 14:
+        raise py2v.Unsupported("get_regions_and_coremasks has %d statements, the model was written for 14" % n_stmts)
+
+
 def main():
     with open(os.path.join(REPO, FILE)) as f:
         tree = ast.parse(f.read())
     out = ["(* GENERATED by tools/dump_c12.py (expression translator of tools/py2v.py) from the current "
            "source text of %s -- do not edit. *)" % FILE,
            "From Coq Require Import ZArith Bool List.", "Import ListNotations.", "Open Scope Z_scope.", ""]
+
+    check_structure(tree)
 
     # ---- get_region_for_chip (whole function; the default of `level` is emitted separately)
     node = py2v.find_function(tree, "get_region_for_chip")
